@@ -352,6 +352,11 @@ def NoDependentOnC (s : St) (g : Graph) (key : Key) : Prop :=
 theorem NoDependentOn.toC {s : St} {g : Graph} {key : Key} (h : NoDependentOn s g key) : NoDependentOnC s g key :=
   ⟨h.1, fun k D _ hm _ _ _ => (h.2 k D hm).2⟩
 
+/-- with the channel drained the two hypotheses coincide -/
+theorem NoDependentOnC.drained {s : St} {g : Graph} {key : Key} (hout : s.out = []) (h : NoDependentOnC s g key) :
+    NoDependentOn s g key :=
+  ⟨h.1, fun k D hm => by rw [hout] at hm; cases hm⟩
+
 /-- `PendingC` is kept when the entry of `key` leaves the cache, provided nothing cached depends on it -/
 theorem PendingC.remove {env : Env} (hS : env.Steady) {fuel : Nat} {s t : St} {g : Graph} {key : Key}
     (hp : PendingC env fuel s g) (hout : t.out = s.out)
